@@ -4,7 +4,8 @@
   `RunContext.is_task_to_be_skipped`, and replays a globally sequenced trace observed from a real
   `runner.run_suites` execution (design.d/run-schema.md).  Every record must be explained by the model:
 
-    * scheduler records: exactly as in drivers/Sched.lean (dispatch sets = `popped`, decisions = `decideMode`);
+    * scheduler records: exactly as in drivers/Sched.lean (dispatch sets = `popped`, decisions = `decideMode`); the
+      embedded scheduler state starts at `Sched.init` and changes through `Sched.step` only;
     * a task's fired events and user-code records: must be, in order, the item list `Run.runTask` computes
       for that task (events of `lcc.Thread`s are attributed through role binding);
     * run / skip decisions taken from the context must be justified by flags that are *definitely* set
@@ -75,6 +76,7 @@ structure G where
   sessionStarted : Bool
   sessionEnded : Bool
   mainUser : List (Nat × UnitId × String)   -- user records outside any task (pre_run phase), newest first
+  inited : Bool                       -- the `init` record (the initial dispatch of `run_tasks`) has been seen
 
 structure Ctx where
   P : Proj
@@ -84,9 +86,13 @@ structure Ctx where
   parentOf : Nat → Option Nat      -- observed: the thread that created an `lcc.Thread`
 
 /-- `run_suites` sets the pre_run fixtures up before the session starts (the session only runs if all of
-    them succeeded): their results exist from the beginning -/
+    them succeeded): their results exist from the beginning.  The embedded scheduler starts in M1's initial
+    state `Sched.init` (the state after the initial dispatch of `run_tasks`) and is from then on updated
+    through `Sched.step` ONLY (`Props/C01Accept.lean`: an accepted trace is an execution of M1); the `init`
+    record is the observation of that initial dispatch: it is checked, must come exactly once and before any
+    other scheduler record. -/
 def G.init (c : Ctx) : G :=
-  { sched := Sched.empty,
+  { sched := Sched.init c.graph c.n, inited := false,
     insts := { results := (preRunFixtures c.P).map (fun n => (InstKey.preRun, n)), ptObjects := [] }, kept := [], reasonOf := [], running := [], defF := Flags.none,
     startedEff := Flags.none, fired := #[], handled := 0, sessionStarted := false, sessionEnded := false, mainUser := [] }
 
@@ -285,9 +291,11 @@ def firstFailedDep (c : Ctx) (g : G) (t : Nat) : Option Nat :=
 def step (c : Ctx) (g : G) : Rec → Verdict
   | .init disp =>
     let p := popped c.graph Sched.empty c.n
-    if p != disp then .reject s!"init: model dispatches {p}, implementation {disp}"
-    else .ok { g with sched := Sched.init c.graph c.n }
+    if g.inited then .reject "init: second initial dispatch"
+    else if p != disp then .reject s!"init: model dispatches {p}, implementation {disp}"
+    else .ok { g with inited := true }
   | .start t w ctxReason run reason =>
+    if !g.inited then .reject s!"start {t}: before the initial dispatch" else
     match tidOf c t with
     | none => .reject s!"start {t}: unknown task"
     | some tid =>
@@ -331,6 +339,7 @@ def step (c : Ctx) (g : G) : Rec → Verdict
     acceptItem c g th (fun role => .ev (setEventTid role e))
   | .user th u what => acceptItem c g th (fun role => .user role u what)
   | .finish t r =>
+    if !g.inited then .reject s!"finish {t}: before the initial dispatch" else
     match g.running.find? (fun x => x.task == t) with
     | none => .reject s!"finish {t}: task not running"
     | some ru0 =>
@@ -362,6 +371,7 @@ def step (c : Ctx) (g : G) : Rec → Verdict
               running := g.running.filter (fun x => x.task != t)
               defF := mergeFlags g.defF ru.out.eff }
   | .receive t disp =>
+    if !g.inited then .reject s!"receive {t}: before the initial dispatch" else
     match Sched.step c.graph c.n g.sched (.receive t) with
     | none => .reject s!"receive {t}: not enabled"
     | some s' =>
@@ -370,6 +380,7 @@ def step (c : Ctx) (g : G) : Rec → Verdict
       if p != disp then .reject s!"receive {t}: model dispatches {p}, implementation {disp}"
       else .ok { g with sched := s' }
   | .interrupt disp =>
+    if !g.inited then .reject "interrupt: before the initial dispatch" else
     match Sched.step c.graph c.n g.sched .interrupt with
     | none => .reject "interrupt: already aborted"
     | some s' =>
@@ -382,5 +393,89 @@ def step (c : Ctx) (g : G) : Rec → Verdict
     else .ok { g with handled := k + 1 }
   | .backendRaise _ => .ok { g with startedEff := { g.startedEff with pending := true } }
   | .handlerExit => .ok { g with defF := { g.defF with pending := g.startedEff.pending } }
+
+/-! ### The entry point: graph check, context, fold over the trace
+
+    Everything `drivers/Run.lean` does with a decoded observation that matters for the verdict lives here, so
+    that the soundness theorem (`Props/C01Accept.lean`) speaks about the function the driver really runs. -/
+
+/-- one task of the graph extracted from the real `build_tasks`: its id and the INDICES of its dependencies -/
+structure GTask where
+  kind : TaskKind
+  path : Path
+  succ : List Nat
+  compl : List Nat
+deriving Repr, Inhabited
+
+/-- the real task graph as a scheduler graph over task indices `0 … k-1` -/
+def natGraph (gts : List GTask) : Sched.Graph Nat :=
+  let garr := gts.toArray
+  { tasks := List.range gts.length
+    succDeps := fun t => match garr[t]? with | some x => x.succ | none => []
+    complDeps := fun t => match garr[t]? with | some x => x.compl | none => [] }
+
+/-- index of a task id in the model's task list (`none` if it is not there) -/
+def idxIn (ids : List TaskId) (t : TaskId) : Option Nat := ids.findIdx? (· == t)
+
+/-- the model's graph (`buildTasks P`), dependencies as indices -/
+def modelGraph (P : Proj) : List (TaskKind × Path × List (Option Nat) × List (Option Nat)) :=
+  let mts := buildTasks P
+  let mIds := mts.map (·.id)
+  mts.map (fun t => (t.id.kind, t.id.path, t.succ.map (idxIn mIds), t.compl.map (idxIn mIds)))
+
+def realGraph (gts : List GTask) : List (TaskKind × Path × List (Option Nat) × List (Option Nat)) :=
+  gts.map (fun t => (t.kind, t.path, t.succ.map some, t.compl.map some))
+
+/-- the real task graph is the model's: same tasks in the same order, same dependency lists; and task ids are
+    pairwise distinct (they are for every valid project, `C01Graph.buildTasks_wf`; checked here so that an
+    accepted run needs no assumption on the project) -/
+def graphOk (P : Proj) (gts : List GTask) : Bool :=
+  decide (modelGraph P = realGraph gts) && decide ((buildTasks P).map (·.id)).Nodup
+
+def mkCtx (P : Proj) (gts : List GTask) (parents : List (Nat × Nat)) : Ctx :=
+  { parentOf := fun th => parents.lookup th, P := P, graph := natGraph gts,
+    tasks := (gts.map (fun t => ({ id := ⟨t.kind, t.path⟩, succ := [], compl := [] } : TaskSpec))).toArray,
+    n := P.nbThreads }
+
+/-- Re-tabulate the scheduler's function-valued fields (an interpreter matter, see harness/README.md; it is the
+    identity on the states the acceptor reaches: `AcceptSound.normalizeSched_eq`). -/
+def normalizeSched (k : Nat) (s : Sched.State Nat) : Sched.State Nat :=
+  let ids := List.range k
+  let aPhase := (ids.map s.phase).toArray
+  let aResult := (ids.map s.result).toArray
+  let aMode := (ids.map s.mode).toArray
+  let aForced := (ids.map s.forced).toArray
+  let aStartAt := (ids.map s.startAt).toArray
+  let aFinishAt := (ids.map s.finishAt).toArray
+  let aStarts := (ids.map s.starts).toArray
+  { s with
+    phase := fun i => aPhase.getD i .remaining, result := fun i => aResult.getD i none,
+    mode := fun i => aMode.getD i none, forced := fun i => aForced.getD i false,
+    startAt := fun i => aStartAt.getD i none, finishAt := fun i => aFinishAt.getD i none,
+    starts := fun i => aStarts.getD i 0 }
+
+/-- one record: `step`, then re-tabulation -/
+def stepRec (c : Ctx) (g : G) (r : Rec) : Except String G :=
+  match step c g r with
+  | .ok g' => .ok { g' with sched := normalizeSched c.graph.tasks.length g'.sched }
+  | .reject why => .error why
+
+/-- what the replay of a trace gives: the state after the last accepted record, how many records were
+    accepted, and why the next one was rejected (`none`: the whole trace is accepted) -/
+structure Outcome where
+  state : G
+  accepted : Nat
+  reject : Option String
+
+/-- fold `stepRec` over the trace, stopping at the first rejected record -/
+def replayFrom (c : Ctx) : G → Nat → List Rec → Outcome
+  | g, i, [] => { state := g, accepted := i, reject := none }
+  | g, i, r :: rs =>
+    match stepRec c g r with
+    | .ok g' => replayFrom c g' (i + 1) rs
+    | .error why => { state := g, accepted := i, reject := some why }
+
+/-- the acceptor's entry point (what `drivers/Run.lean` runs on every real trace) -/
+def replay (c : Ctx) (recs : List Rec) : Outcome := replayFrom c (G.init c) 0 recs
 
 end LccModel.RunAccept
